@@ -5,7 +5,7 @@
     return a state or an error for every history in the clock domain); its end-to-end statement
     over the command functions is listed as open in DESIGN.md.  The matrix of the quantifier is run
     against the real commands on every check. *)
-From WT Require Import Base.Wrap Base.ListX Model.Time Model.Ring Model.Update Model.Handle Model.Cmd Proofs.CmdProofs.
+From WT Require Import Base.Wrap Base.ListX Model.Time Model.Ring Model.Update Model.Handle Model.Cmd Proofs.CmdProofs Model.Codec Model.Text Model.Args Proofs.ArgsProofs.
 
 Theorem C16_copy_verdicts F src dest o until now :
   r_status (copy_core F src dest o until now) <> StDiff /\
@@ -103,3 +103,41 @@ Print Assumptions C16_unwritable_report_is_never_success.
 Theorem C16_command_failures_are_kept to st : st <> StOk -> to <> ToBad -> textout_status to st = st.
 Proof. exact (textout_keeps_failures to st). Qed.
 Print Assumptions C16_command_failures_are_kept.
+
+(** ** every invocation starts at the command line (Model/Args.v: [Parse] of each subcommand on the
+    flag package's argument syntax).  Whatever the arguments are, the invocation is either ended
+    before [Execute] (status 2, or 0 for -h) or [Execute] runs with options that meet what the
+    command models above assume: an ordered window (for the commands that check it), timestamps of
+    32 bits, one of the six storable aggregation methods and an archive list the retention parser
+    accepts (for the commands that may create a file), and every option the command requires. *)
+Theorem C16_execute_runs_only_with_sound_options pf fx c args o :
+  parse_command pf fx c args = PRun o ->
+  opts_ok o /\
+  (checks_window c = true -> o_from o <= o_until o) /\
+  (writes_file c = true -> 1 <= o_method o <= 6 /\ exists l s, o_layout o = Some l /\ parse_archive_info_list s = Some l).
+Proof. exact (run_options_sound pf fx c args o). Qed.
+Print Assumptions C16_execute_runs_only_with_sound_options.
+
+Theorem C16_execute_runs_only_with_required_options pf fx c args o :
+  parse_command pf fx c args = PRun o ->
+  match c with
+  | CCopy => o_src_base o <> [] /\ o_src o <> [] /\ o_dest_base o <> [] /\ is_base_url (o_dest_base o) = false
+  | CDiff => o_src_base o <> [] /\ o_src o <> [] /\ o_dest_base o <> []
+  | CGenerate => o_dest o <> []
+  | CServer => True
+  | CSum => o_item o <> [] /\ o_src_base o <> [] /\ o_src o <> []
+  | CSumCopy => o_item o <> [] /\ o_src_base o <> [] /\ o_src o <> [] /\ o_dest_base o <> [] /\ o_dest o <> [] /\ is_base_url (o_dest_base o) = false
+  | CSumDiff => o_item o <> [] /\ o_src_base o <> [] /\ o_src o <> [] /\ o_dest_base o <> [] /\ o_dest o <> []
+  | CView | CViewRaw => o_src_base o <> [] /\ o_src o <> []
+  end.
+Proof. exact (run_options_complete pf fx c args o). Qed.
+Print Assumptions C16_execute_runs_only_with_required_options.
+
+(** the premises are met by ordinary command lines (and the model computes):
+    view -src-base=/d -src=a.wsp -from 2020-01-01T00:00:00Z -until=2020-01-02T00:00:00Z *)
+From Coq Require Import String.
+Example C16_command_line_example :
+  exists o, parse_command (fun _ => None) (fun _ => None) CView
+              (map codes ["-src-base=/d"; "-src=a.wsp"; "-from"; "2020-01-01T00:00:00Z"; "-until=2020-01-02T00:00:00Z"]%string) = PRun o
+            /\ o_from o = 1577836800 /\ o_until o = 1577923200 /\ o_archive o = -1 /\ o_header o = true.
+Proof. eexists. vm_compute. repeat split. Qed.
